@@ -773,6 +773,8 @@ func (this *encodingTask) encode(res *encodingTaskResult) {
 			}
 		}
 
+		verifPoint(0, 5, this.currentBlockID, this.processedBlockID)
+
 		// Unblock other tasks
 		if res.err != nil {
 			atomic.StoreInt32(this.processedBlockID, _CANCEL_TASKS_ID)
@@ -780,9 +782,11 @@ func (this *encodingTask) encode(res *encodingTaskResult) {
 			atomic.CompareAndSwapInt32(this.processedBlockID, this.currentBlockID-1, this.currentBlockID)
 		}
 
+		verifPoint(0, 7, this.currentBlockID, this.processedBlockID)
 		this.wg.Done()
 	}()
 
+	verifPoint(0, 0, this.currentBlockID, this.processedBlockID)
 	hashType := kanzi.EVT_HASH_NONE
 
 	// Compute block checksum
@@ -964,6 +968,7 @@ func (this *encodingTask) encode(res *encodingTaskResult) {
 
 	// Lock free synchronization
 	for n := 0; ; n++ {
+		verifPoint(0, 1, this.currentBlockID, this.processedBlockID)
 		taskID := atomic.LoadInt32(this.processedBlockID)
 
 		if taskID == _CANCEL_TASKS_ID {
@@ -978,6 +983,8 @@ func (this *encodingTask) encode(res *encodingTaskResult) {
 			runtime.Gosched()
 		}
 	}
+
+	verifPoint(0, 2, this.currentBlockID, this.processedBlockID)
 
 	// Emit block size in bits (max size pre-entropy is 1 GB = 1 << 30 bytes)
 	lw := uint(3)
@@ -1826,18 +1833,23 @@ func (this *decodingTask) decode(res *decodingTaskResult) {
 			}
 		}
 
+		verifPoint(1, 5, this.currentBlockID, this.processedBlockID)
+
 		// Unblock other tasks
 		if res.err != nil || (res.decoded == 0 && res.skipped == false) {
 			atomic.StoreInt32(this.processedBlockID, _CANCEL_TASKS_ID)
 		} else if atomic.LoadInt32(this.processedBlockID) == this.currentBlockID-1 {
+			verifPoint(1, 6, this.currentBlockID, this.processedBlockID)
 			atomic.StoreInt32(this.processedBlockID, this.currentBlockID)
 		}
 
+		verifPoint(1, 7, this.currentBlockID, this.processedBlockID)
 		this.wg.Done()
 	}()
 
 	// Lock free synchronization
 	for n := 0; ; n++ {
+		verifPoint(1, 1, this.currentBlockID, this.processedBlockID)
 		taskID := atomic.LoadInt32(this.processedBlockID)
 
 		if taskID == _CANCEL_TASKS_ID {
@@ -1852,6 +1864,8 @@ func (this *decodingTask) decode(res *decodingTaskResult) {
 			runtime.Gosched()
 		}
 	}
+
+	verifPoint(1, 2, this.currentBlockID, this.processedBlockID)
 
 	// Read shared bitstream sequentially
 	blockOffset := this.ibs.Read()
@@ -1892,6 +1906,8 @@ func (this *decodingTask) decode(res *decodingTaskResult) {
 		read -= uint64(chkSize)
 	}
 
+	verifPoint(1, 3, this.currentBlockID, this.processedBlockID)
+
 	// After completion of the bitstream reading, increment the block id.
 	// It unblocks the task processing the next block (if any)
 	// Do not overwrite a cancellation requested by a failed task.
@@ -1911,6 +1927,8 @@ func (this *decodingTask) decode(res *decodingTaskResult) {
 			return
 		}
 	}
+
+	verifPoint(1, 4, this.currentBlockID, this.processedBlockID)
 
 	// All the code below is concurrent
 	// Create a bitstream local to the task
